@@ -173,8 +173,12 @@ impl SingleSubLowerer<'_, '_> {
         };
 
         // EoSD args must be const
-        let lowered_int = self.classify_expr(&int)?.expect_simple().lowered.clone();
-        let lowered_float = self.classify_expr(&float)?.expect_simple().lowered.clone();
+        let mut lower_const_arg = |arg: &Sp<ast::Expr>| match self.classify_expr(arg)? {
+            ExprClass::Simple(simple) => Ok(simple.lowered.clone()),
+            ExprClass::NeedsElaboration(_) => Err(self.unsupported(arg.span, "this argument (an EoSD sub call takes a constant or a single variable)")),
+        };
+        let lowered_int = lower_const_arg(&int)?;
+        let lowered_float = lower_const_arg(&float)?;
         let lowered_sub_id = sp!(call.name.span => LowerArg::Raw(sub.index.into()));
 
         self.lower_intrinsic(
